@@ -266,6 +266,63 @@ def lk6(ctx, flavours):
     return out
 
 
+def lk7(ctx, flavours):
+    """a lookup may decide WHETHER an operation mutates, not WHICH mutation it performs: the outcome of a read-only query (taken
+    under an earlier, already released acquisition) must not select between two different list mutations -- by the time the
+    chosen one runs another thread may have made the other one the right choice, and nothing falls back to it.  Choosing by the
+    outcome of a mutation itself (`match remove_inbound(..) { Ok => .., Err => remove_outbound(..) }`) is the sound form."""
+    from .rules_edge import model, mutator_reach
+    from .effects import node_events
+    from .core import term_calls
+    F, G = ctx.F, ctx.G()
+    out = []
+    for fl in flavours:
+        M = model(ctx, fl)
+        reach_m, _ = mutator_reach(ctx, fl)
+        for b in F.by_flavour(fl):
+            if b['kind'] == 'Closure' or b['q'] in getattr(F, 'absorbed', ()) or not b.get('impl_self_q', '').endswith('::node::Node') or b.get('impl_trait'):
+                continue
+            evs = [e for e in node_events(F, M, b) if M.muts(e[1])]
+            if len(evs) < 2:
+                continue
+            cfg, pv = F.cfg(b), F.prov(b)
+            R = cfg.can_return()
+            why = []
+            for sb in sorted(cfg.reach):
+                t = b['blocks'][sb]['term']
+                if t['k'] != 'switch':
+                    continue
+                term = pv.of_operand(t['op'])
+                calls = term_calls(term)
+                is_query = False
+                if any(c[1].endswith('Iterator>::next') or c[1] == 'std::iter::Iterator::next' for c in calls):
+                    continue      # a loop stepping its iterator: "more edges / done", not a choice between mutations
+                for c in calls:
+                    cn = c[1]
+                    if cn in M.methods and not M.muts(cn):
+                        is_query = True
+                    elif cn in F.bodies and F.flavour(F.bodies[cn]) == fl and cn not in reach_m and G.may.get(cn):
+                        is_query = True
+                    if cn in M.methods and M.muts(cn):
+                        is_query = False      # the outcome of a mutation: re-validated by the mutation itself
+                        break
+                if not is_query:
+                    continue
+                succs = [(v, tg) for v, tg in t['targets']] + [('else', t['otherwise'])]
+                sides = []
+                for v, tg in succs:
+                    if tg not in R:
+                        continue
+                    ms = sorted({(e[1].split('::')[-1], pretty(e[2])) for e in evs if cfg.edge_dominates(sb, tg, e[0])})
+                    if ms:
+                        sides.append(ms)
+                if len(sides) >= 2 and any(x != sides[0] for x in sides[1:]):
+                    why.append('the query tested at %s selects between different mutations (%s): check-then-act across critical sections' % (
+                        F.where(b, sb), ' | '.join(','.join(m for m, _ in sd) for sd in sides)))
+            out.append(Obl('LK7', b['q'], b['span'], 'no lookup outcome selects between two different list mutations', not why, '; '.join(why) if why else 'mutations are chosen by the outcome of mutations only'))
+    return out
+
+
 def lk_try(ctx, flavours):
     """the outcome of an operation must not depend on contention: no try_read / try_write / try_lock (a failed try is reported to
     the caller as a data outcome -- 'no such edge' -- that no sequential order of the operations explains)"""
